@@ -5,6 +5,7 @@ import RedisGoModel.Driver.Exec
 import RedisGoModel.Driver.Serve
 import RedisGoModel.Driver.Apply
 import RedisGoModel.Driver.Wal
+import RedisGoModel.Driver.Codec
 /-! Correspondence driver: reads one observed operation per line on stdin, recomputes it with the model, prints
     `MISMATCH <lineno> <detail>` for every disagreement and a final `SUMMARY` line.  Each engine recognises its own line tags. -/
 open Driver
@@ -33,7 +34,7 @@ def judge (st : St) (fs : List String) : St × Option (Except String Bool) :=
   let (wal', v) := walLine st.wal fs
   let st := { st with wal := wal' }
   if v.isSome then (st, v) else
-  (st, (globLine fs).orElse fun _ => parserLine fs)
+  (st, ((codecLine fs).orElse fun _ => globLine fs).orElse fun _ => parserLine fs)
 
 partial def loop (h : IO.FS.Stream) (st : St) : IO St := do
   let line ← h.getLine
